@@ -616,15 +616,40 @@ class Body:
             self._untracked = u
         return self._untracked
 
-    def feasible_step(self, x, env):
+    def restricted(self, blocks):
+        """Context manager: value trees are computed from the definitions inside `blocks` only (the part of the CFG that is feasible
+        under some assumption), so that `x = if flag {a} else {b}` has one definition when the flag is assumed."""
+        body = self
+
+        class _R(object):
+            def __enter__(self_):
+                self_.old = getattr(body, "_restrict", None)
+                body._restrict = set(blocks)
+                return body
+
+            def __exit__(self_, *a):
+                body._restrict = self_.old
+                return False
+        return _R()
+
+    def feasible_step(self, x, env, oracle=None):
         """One block of the path-sensitive walk: (environment after the block, feasible successors, was the branch decided by the environment)."""
         succ = self.succ_map()
         untracked = self._untracked_locals()
 
         def ev_place(env, pl):
+            if oracle is not None:
+                r_ = oracle(pl)
+                if r_ is not None:
+                    return r_
             v = env.get(pl["l"])
             for e in pl["p"]:
                 if v is None or isinstance(v, bool):
+                    return None
+                if e == "*":
+                    if v[0] == "R":
+                        v = v[1]
+                        continue
                     return None
                 if isinstance(e, dict) and "d" in e:
                     if v[0] == "V" and v[1] == e["d"]:
@@ -641,6 +666,12 @@ class Body:
                 c = o["const"].get("v")
                 if c in ("true", "false"):
                     return c == "true"
+                # a unit variant of an enum as a constant (`&Phase::Main` is promoted): Enum::Variant
+                ty = str(o["const"].get("ty") or "")
+                base = ty.lstrip("&").strip()
+                if isinstance(c, str) and base and c.startswith(strip_generics(base) + "::") and "(" not in c and "{" not in c:
+                    val = ("V", c.rsplit("::", 1)[-1], ())
+                    return ("R", val) if ty.startswith("&") else val
                 return None
             if o["k"] in ("copy", "move"):
                 return ev_place(env, o["pl"])
@@ -660,6 +691,9 @@ class Body:
             val = None
             if rv["k"] == "use":
                 val = ev_op(env, rv["op"])
+            elif rv["k"] == "ref" and rv.get("bk") in ("shared", "Shared", None):
+                pv = ev_place(env, rv["pl"])
+                val = ("R", pv) if pv is not None and not isinstance(pv, bool) else None
             elif rv["k"] == "un" and rv["op"] == "Not":
                 a = ev_op(env, rv["a"])
                 val = (not a) if isinstance(a, bool) else None
@@ -685,7 +719,19 @@ class Body:
                 env[l] = val
         t = self.blocks[x]["term"]
         if t["k"] == "call":
-            env.pop(t["dest"]["l"], None)
+            res = None
+            cp = strip_generics(t["callee"].get("path", ""))
+            if cp.endswith(("PartialEq::eq", "PartialEq::ne")) and len(t["args"]) == 2 and not t["dest"]["p"]:
+                # derived equality of two unit variants known on this path (`phase == Phase::Main`)
+                a, b2 = ev_op(env, t["args"][0]), ev_op(env, t["args"][1])
+                if a is not None and b2 is not None and not isinstance(a, bool) and not isinstance(b2, bool) and a[0] == "R" and b2[0] == "R":
+                    a, b2 = a[1], b2[1]
+                    if a[0] == "V" and b2[0] == "V" and a[2] == () and b2[2] == () and a[1] is not None and b2[1] is not None:
+                        res = (a[1] == b2[1]) if cp.endswith("::eq") else (a[1] != b2[1])
+            if res is None:
+                env.pop(t["dest"]["l"], None)
+            else:
+                env[t["dest"]["l"]] = res
         nxt = succ[x]
         decided = False
         if t["k"] == "switch" and t["discr"]["k"] in ("copy", "move") and not t["discr"]["pl"]["p"]:
@@ -706,7 +752,7 @@ class Body:
                 decided = True
         return env, nxt, decided
 
-    def reach_feasible(self, start, avoid=(), known=None):
+    def reach_feasible(self, start, avoid=(), known=None, oracle=None):
         """Reachability that follows only the feasible edge of a switch whose discriminant is known *on the path taken*:
         booleans (`x = const`, `y = move x`, `z = !x`) and enum values built by aggregates (`r = Err(Kind::A)`; `match r`),
         including nested payloads. Everything else is explored on all edges; on state explosion the plain (larger) set is returned."""
@@ -724,7 +770,7 @@ class Body:
                 continue
             seen.add((x, envt))
             out.add(x)
-            env, nxt, _dec = self.feasible_step(x, dict(envt))
+            env, nxt, _dec = self.feasible_step(x, dict(envt), oracle)
             et = tuple(sorted(env.items(), key=lambda kv: kv[0]))
             for y in nxt:
                 stack.append((y, et))
@@ -900,6 +946,9 @@ class Body:
         if l in seen or depth > 40:
             return ("local", l, self.local_name(l))
         ds = self.defs().get(l, [])
+        if getattr(self, "_restrict", None) is not None:
+            # evaluation on a sub-graph (the blocks feasible under an assumption): definitions elsewhere do not count
+            ds = [d for d in ds if d[1] in self._restrict]
         # a store through the pointer parameter of an inlined helper (`(*self).f = ..`) does not redefine the pointer
         if self.locals[l].get("inl_param"):
             ds = [d for d in ds if not (d[3]["pl" if d[0] == "stmt" else "dest"]["p"][:1] == ["*"])]
